@@ -63,7 +63,7 @@ var (
 	pkgPool   = []string{"", "a", "a.b", "a.b.c", "a.c", "b", "b.a"}
 	msgPool   = []string{"A", "B", "C", "D", "M", "N"}
 	enumPool  = []string{"E", "F", "G"}
-	fieldPool = []string{"x", "y", "z", "v", "w", "my_field", "f2", "Foo", "foo_bar_baz", "a1_b", "u", "q"}
+	fieldPool = []string{"x", "y", "z", "v", "w", "my_field", "f2", "Foo", "foo_bar_baz", "a1_b", "u", "q", "A", "B", "E"}
 	svcPool   = []string{"S", "T"}
 )
 
@@ -345,6 +345,15 @@ func (b *builder) fields(f *File, m *Message) {
 	nf := rapid.IntRange(0, 5).Draw(t, "nfields")
 	num := 1
 	names := map[string]bool{}
+	// field names share the message scope with nested types, enums and enum values
+	for n := range b.pkgNames["msg:"+m.FQN] {
+		names[n] = true
+	}
+	for _, e := range m.Enums {
+		for _, v := range e.Values {
+			names[v.Name] = true
+		}
+	}
 	freeName := func() (string, bool) {
 		var free []string
 		for _, n := range fieldPool {
@@ -576,7 +585,7 @@ func (b *builder) defaultValue(fl *Field) {
 			fl.Default = `""`
 		}
 	case "bytes":
-		s := pick(b, []string{"", "abc", "\x00\x01\xff", "q\"'\\", "\n\r\t", "7\x078"}, "defbytes")
+		s := pick(b, []string{"", "abc", "\x00\x01\xff", "q\"'\\", "\n\r\t", "7\x078", "a\x7fb~ \x80", "\x1f\x20\x7e\x7f"}, "defbytes")
 		fl.Default, fl.DefaultDesc = quote(s), "bytes:"+s
 		if s == "" {
 			fl.Default = `""`
@@ -675,4 +684,24 @@ func openOnly(enums []*typeInfo, filter bool) []*typeInfo {
 		}
 	}
 	return out
+}
+
+// RespellRefs replaces the absolute spelling of every reference by a randomly drawn spelling that the
+// reference scoping model resolves to the same target (relative, partially qualified or absolute).
+// Returns how many references ended up relative.
+func RespellRefs(t *rapid.T, w *Workspace) int {
+	st := NewSymTab(w)
+	n := 0
+	for _, s := range RefSites(w) {
+		good, _, _ := st.ValidSpellings(s)
+		if len(good) == 0 {
+			continue // cannot happen: the absolute spelling always resolves
+		}
+		sp := rapid.SampledFrom(good).Draw(t, "spelling")
+		s.Set(sp)
+		if sp[0] != '.' {
+			n++
+		}
+	}
+	return n
 }
